@@ -39,7 +39,7 @@ import (
 )
 
 type c14Ctl struct {
-	Kind     string `json:"kind"` // breaker | esm | inactive
+	Kind     string `json:"kind"` // breaker | esm | inactive | esm-inactive | breaker-esm
 	App      int    `json:"app"`
 	After    bool   `json:"after_cool_off,omitempty"`
 	Inactive []int  `json:"inactive_assets,omitempty"` // indices into cfg.Assets
@@ -169,6 +169,14 @@ func c14Apply(m *vMachine, ctl c14Ctl) {
 			st.StartTime, st.EndTime = c.Ctx.BlockTime().Add(-time.Hour), c.Ctx.BlockTime().Add(time.Hour)
 		}
 		c.App.EsmKeeper.SetESMStatus(c.Ctx, st)
+	case "breaker-esm":
+		// both controls at once: emergency shutdown executed (snapshot taken by its hook) and the breaker on
+		c14Apply(m, c14Ctl{Kind: "esm", App: ctl.App, After: ctl.After})
+		func() {
+			defer func() { _ = recover() }()
+			esm.BeginBlocker(c.Ctx, abci.RequestBeginBlock{}, c.App.EsmKeeper, c.App.AssetKeeper)
+		}()
+		c14Apply(m, c14Ctl{Kind: "breaker", App: ctl.App})
 	case "inactive":
 		for _, ai := range ctl.Inactive {
 			tw, _ := c.App.MarketKeeper.GetTwa(c.Ctx, cfg.Assets[ai].ID)
@@ -260,7 +268,8 @@ func c14Run(t rec.TB, r *rec.Rec, cs *c14Case, m *vMachine) {
 		})
 		ctxs := fmt.Sprintf("%s/%s", ctl.Kind, op.K)
 		must := false
-		if op.K == "liqmsg" && (ctl.Kind == "breaker" && app == ctl.App || ctl.Kind == "inactive" && m.c14NeedsInactive(prod, ctl)) {
+		breakerOn := ctl.Kind == "breaker" || ctl.Kind == "breaker-esm"
+		if op.K == "liqmsg" && (breakerOn && app == ctl.App || ctl.Kind == "inactive" && m.c14NeedsInactive(prod, ctl)) {
 			// a liquidation requested by message is the sweep's per-vault step: it may not lock the vault
 			if lockedOff > 0 {
 				r.Class("guard-decides:" + ctxs)
@@ -276,6 +285,12 @@ func c14Run(t rec.TB, r *rec.Rec, cs *c14Case, m *vMachine) {
 		switch ctl.Kind {
 		case "breaker":
 			must = app == ctl.App && c14BreakerRefused[op.K]
+		case "breaker-esm":
+			// the breaker's refusals do not depend on the shutdown state, and the shutdown's own still apply
+			must = app == ctl.App && (c14BreakerRefused[op.K] || c14EsmMints[op.K] || (op.K == "withdraw" && ctl.After))
+			if app == ctl.App && errOn == nil && mintedOn {
+				r.Fail(t, "C14.debt-minted-after-emergency-shutdown", ctxs, cs, "candidate %d (%s by user %d, product %d): supply of a debt asset of the shut-down app grew", ci, op.K, op.U, prod)
+			}
 		case "esm":
 			must = app == ctl.App && (c14EsmMints[op.K] || (op.K == "withdraw" && ctl.After))
 			if app == ctl.App && errOn == nil && mintedOn {
@@ -319,7 +334,7 @@ func c14Run(t rec.TB, r *rec.Rec, cs *c14Case, m *vMachine) {
 		m.branch(func() {
 			// governance arms a surplus or a debt auction for the collectors of the controlled app: thresholds
 			// such that the next sweep would start one (x/liquidationsV2/keeper/liquidate.go:475-535)
-			if ctl.Kind == "breaker" {
+			if ctl.Kind == "breaker" || ctl.Kind == "breaker-esm" {
 				for _, lc := range cfg.Lockers {
 					if lc.App != ctl.App {
 						continue
@@ -380,25 +395,26 @@ func c14Run(t rec.TB, r *rec.Rec, cs *c14Case, m *vMachine) {
 	_, offApp, offPairs, offEnglish := sweep(false)
 	onFresh, onApp, onPairs, onEnglish := sweep(true)
 	switch ctl.Kind {
-	case "breaker", "esm":
+	case "breaker", "esm", "breaker-esm":
 		// the shutdown blocks the vault sweep as well (liquidate.go:88-92); the property names the breaker
 		id := m.apps[ctl.App]
+		breakerOn := ctl.Kind == "breaker" || ctl.Kind == "breaker-esm"
 		if offApp[id] > 0 {
 			r.Class("sweep-guard-decides:" + ctl.Kind)
 			r.NonTrivialSig(rec.Sig([]interface{}{cs.V, ctl, "sweep"}), func() interface{} {
 				return map[string]interface{}{"control": ctl, "sweep_without_control_locks": offApp[id]}
 			})
 		}
-		if ctl.Kind == "breaker" && offEnglish[id] > 0 {
+		if breakerOn && offEnglish[id] > 0 {
 			r.Class("sweep-guard-decides:surplus-or-debt-auction")
 			r.NonTrivialSig(rec.Sig([]interface{}{cs.V, ctl, "english"}), func() interface{} {
 				return map[string]interface{}{"control": ctl, "surplus_or_debt_auctions_without_control": offEnglish[id]}
 			})
 		}
-		if ctl.Kind == "breaker" && onEnglish[id] > 0 {
+		if breakerOn && onEnglish[id] > 0 {
 			r.Fail(t, "C14.surplus-or-debt-auction-started-under-breaker", "sweep", cs, "with the breaker of app %d on, %d surplus/debt auction(s) were started for it: %v", id, onEnglish[id], onFresh)
 		}
-		if ctl.Kind == "breaker" && onApp[id] > 0 {
+		if breakerOn && onApp[id] > 0 {
 			r.Fail(t, "C14.sweep-liquidates-under-breaker", "sweep", cs, "with the breaker of app %d on, the sweep locked %d vault(s) of that app: %v", id, onApp[id], onFresh)
 		}
 	case "inactive", "esm-inactive":
@@ -444,9 +460,9 @@ func TestC14_controls(t *testing.T) {
 				m.apply(i, op)
 			}
 			cfg := &vc.Cfg
-			ctl := c14Ctl{Kind: rapid.SampledFrom([]string{"breaker", "breaker", "esm", "esm", "inactive", "inactive", "esm-inactive"}).Draw(rt, "ctl")}
+			ctl := c14Ctl{Kind: rapid.SampledFrom([]string{"breaker", "breaker", "esm", "esm", "inactive", "inactive", "esm-inactive", "breaker-esm"}).Draw(rt, "ctl")}
 			switch ctl.Kind {
-			case "breaker", "esm":
+			case "breaker", "esm", "breaker-esm":
 				ctl.App = rapid.IntRange(0, cfg.NApps-1).Draw(rt, "ctlapp")
 				ctl.After = rapid.Bool().Draw(rt, "after")
 			case "inactive", "esm-inactive":
